@@ -566,3 +566,313 @@ Proof.
   destruct (exec_flat c (Params 0 ml false) 0 (init_st (Params 0 ml false)) eq_refl eq_refl Hs) as [a [cp [E T]]].
   rewrite E. cbn. auto.
 Qed.
+
+(* ------------------------------------------------------------------ every complete run shows one of the layouts of the tree *)
+Definition lit_esc (b : bool) : text -> text := if b then bytes_escape else str_escape.
+Definition lit_prefix (b : bool) : text := if b then [98] else [].
+Definition lit_single (b : bool) (raw : text) : text := lit_prefix b ++ [39] ++ lit_esc b raw ++ [39].
+Definition lit_triple (b : bool) (raw : text) : text :=
+  lit_prefix b ++ [39; 39; 39] ++ join_nl (map (lit_esc b) (split_nl raw)) ++ [39; 39; 39].
+
+(* the texts a tree of output calls can come out as: a comma is followed by a space or by a newline and an indentation,
+   a string is in single quotes on one line or in triple quotes with its newlines raw *)
+Fixpoint flatP (c : cmd) (w : text) : Prop :=
+  match c with
+  | COut t _ => w = t
+  | CStr b raw => w = lit_single b raw \/ w = lit_triple b raw
+  | CWbr => w = []
+  | CSeq cs =>
+    (fix go (cs : list cmd) (w : text) : Prop :=
+       match cs with
+       | [] => w = []
+       | c1 :: cs' => exists w1 w2, w = w1 ++ w2 /\ flatP c1 w1 /\ go cs' w2
+       end) cs w
+  | CDelim b c1 => if b then exists w1, w = [40] ++ w1 ++ [41] /\ flatP c1 w1 else flatP c1 w
+  | CMulti c1 | CIndent c1 => flatP c1 w
+  | CComma => w = [44; 32] \/ exists n, w = 44 :: NL :: spaces n
+  end.
+
+Definition seqP : list cmd -> text -> Prop :=
+  fix go (cs : list cmd) (w : text) : Prop :=
+    match cs with
+    | [] => w = []
+    | c1 :: cs' => exists w1 w2, w = w1 ++ w2 /\ flatP c1 w1 /\ go cs' w2
+    end.
+Lemma flatP_CSeq cs w : flatP (CSeq cs) w = seqP cs w.
+Proof. reflexivity. Qed.
+
+Fixpoint plain_cmd (c : cmd) : bool :=
+  match c with
+  | COut _ k => plain_kind k
+  | CStr _ _ | CWbr | CComma => true
+  | CSeq cs => forallb plain_cmd cs
+  | CDelim _ c1 | CMulti c1 | CIndent c1 => plain_cmd c1
+  end.
+
+Lemma simple_plain c : simple_cmd c = true -> plain_cmd c = true.
+Proof.
+  induction c using cmd_ind2; cbn [simple_cmd plain_cmd]; auto.
+  - intros H. apply andb_true_iff in H. tauto.
+  - intros Hs. induction cs as [|c cs IHcs]; [reflexivity|].
+    inversion H; subst. cbn [forallb] in *. apply andb_true_iff in Hs. destruct Hs.
+    apply andb_true_iff. split; auto.
+Qed.
+
+(* the inline layout is one of them *)
+Lemma flat_flatP c : flatP c (flat c).
+Proof.
+  induction c using cmd_ind2; cbn [flatP flat]; auto.
+  - left. unfold lit_single, lit_prefix, lit_esc, SQ. destruct b; rewrite <- ?app_assoc; reflexivity.
+  - induction cs as [|c cs IHcs]; [reflexivity|]. inversion H; subst.
+    exists (flat c), (flat_seq cs). split; [reflexivity|]. split; [assumption|]. apply IHcs. assumption.
+  - destruct b; [exists (flat c); split; [reflexivity|exact IHc]|exact IHc].
+Qed.
+
+Lemma andthen_none r k s' : andthen r k = (s', None) -> exists s1, r = (s1, None) /\ k s1 = (s', None).
+Proof. destruct r as [s1 [e|]]; cbn; [discriminate|eauto]. Qed.
+
+Lemma output_ok p t k s s' :
+  plain_kind k = true -> output p t k s = (s', None) ->
+  exists added, Wrap.res s' = Wrap.res s ++ added /\ closedb added = true /\ unwrap added = t.
+Proof.
+  intros Hk H. unfold output in H.
+  destruct (out_segs_result p k Hk (split_nl t) true s (split_nl_nonempty t)) as [added [Ha Hr]].
+  rewrite H in Ha, Hr. cbn [fst snd app] in *. rewrite join_split in Hr. destruct Hr as [Hu Hc].
+  exists added. auto.
+Qed.
+
+Lemma output_ext p t k s :
+  plain_kind k = true -> exists added, Wrap.res (fst (output p t k s)) = Wrap.res s ++ added.
+Proof.
+  intros Hk. unfold output.
+  destruct (out_segs_result p k Hk (split_nl t) true s (split_nl_nonempty t)) as [added [Ha _]].
+  exists added. exact Ha.
+Qed.
+
+(* "only appends" composes *)
+Definition ext (s : st) (o : outcome) : Prop := exists added, Wrap.res (fst o) = Wrap.res s ++ added.
+
+Lemma ext_refl s r : ext s (s, r).
+Proof. exists []. cbn. rewrite app_nil_r. reflexivity. Qed.
+
+Lemma ext_andthen s r k :
+  ext s r -> (forall s1, (exists a, Wrap.res s1 = Wrap.res s ++ a) -> ext s1 (k s1)) -> ext s (andthen r k).
+Proof.
+  intros [a Ha] Hk. destruct r as [s1 [e|]]; cbn [andthen fst] in *.
+  - exists a. exact Ha.
+  - destruct (Hk s1 (ex_intro _ a Ha)) as [b Hb]. exists (a ++ b). rewrite Hb, Ha. rewrite app_assoc. reflexivity.
+Qed.
+
+Lemma ext_same_res s s0 o : Wrap.res s0 = Wrap.res s -> ext s0 o -> ext s o.
+Proof. intros E [a Ha]. exists a. rewrite Ha, E. reflexivity. Qed.
+
+Lemma ext_trans s s1 o : (exists a, Wrap.res s1 = Wrap.res s ++ a) -> ext s1 o -> ext s o.
+Proof. intros [a Ha] [b Hb]. exists (a ++ b). rewrite Hb, Ha, app_assoc. reflexivity. Qed.
+
+Lemma str_lines_ext p esc : forall lines first s, ext s (str_lines p esc first lines s).
+Proof.
+  induction lines as [|l lines IH]; intros first s; [apply ext_refl|].
+  cbn [str_lines]. apply ext_andthen.
+  - destruct first; [apply ext_refl|apply (output_ext p [NL] NText s eq_refl)].
+  - intros s1 _. apply ext_andthen; [apply (output_ext p _ NString s1 eq_refl)|]. intros s2 _. apply IH.
+Qed.
+
+Lemma exec_str_ext p b raw s : ext s (exec_str p b raw s).
+Proof.
+  unfold exec_str. apply ext_andthen; [apply (output_ext p _ NText s eq_refl)|]. intros s1 _.
+  apply ext_andthen; [apply (output_ext p _ NQuote s1 eq_refl)|]. intros s2 _.
+  apply ext_andthen; [apply str_lines_ext|]. intros s3 _. apply (output_ext p _ NQuote s3 eq_refl).
+Qed.
+
+Lemma insert_comma_ext p indent s : ext s (insert_comma p indent s).
+Proof.
+  unfold insert_comma. destruct (lbok s).
+  - apply ext_andthen; [apply (output_ext p _ NText s eq_refl)|]. intros s1 _. apply (output_ext p _ NText s1 eq_refl).
+  - apply (output_ext p _ NText s eq_refl).
+Qed.
+
+Definition ExtSt (c : cmd) : Prop := plain_cmd c = true -> forall p indent s, ext s (exec p indent c s).
+
+Lemma exec_ext c : ExtSt c.
+Proof.
+  induction c using cmd_ind2; unfold ExtSt; intros Hp p indent s.
+  - cbn [exec]. apply output_ext. exact Hp.
+  - cbn [exec]. apply exec_str_ext.
+  - cbn [exec]. exists [WBR]. reflexivity.
+  - rewrite exec_CSeq. cbn [plain_cmd] in Hp. revert s. induction cs as [|c1 cs IHcs]; intros s; [apply ext_refl|].
+    inversion H as [|? ? H1 H2]; subst. cbn [forallb] in Hp. apply andb_true_iff in Hp. destruct Hp as [Hp1 Hp2].
+    cbn [exec_seq]. apply ext_andthen; [apply H1; exact Hp1|]. intros s1 _. apply IHcs; assumption.
+  - cbn [plain_cmd] in Hp. cbn [exec]. destruct b; [|apply IHc; exact Hp].
+    destruct (IHc Hp p indent s) as [a Ha]. destruct (exec p indent c s) as [s1 r] eqn:E. cbn [fst] in Ha.
+    unfold delim_exit, restore, mark_of. cbn [m_len m_charpos m_lineno m_lbok].
+    rewrite Ha. rewrite firstn_app_exact, skipn_app_exact.
+    set (s2 := St (Wrap.res s) (charpos s) (lineno s) (lbok s)).
+    destruct (output_ext p [40] NText s2 eq_refl) as [o1 Ho1].
+    destruct (output p [40] NText s2) as [s3 [e|]] eqn:E3; cbn [fst] in Ho1.
+    + exists o1. exact Ho1.
+    + destruct (output_ext p [41] NText (push s3 a) eq_refl) as [o2 Ho2].
+      destruct (output p [41] NText (push s3 a)) as [s5 [e|]] eqn:E5; cbn [fst] in Ho2;
+        (exists (o1 ++ a ++ o2); cbn [fst]; rewrite Ho2; unfold push; cbn [Wrap.res]; rewrite Ho1;
+         unfold s2; cbn [Wrap.res]; rewrite <- !app_assoc; reflexivity).
+  - cbn [plain_cmd] in Hp. cbn [exec].
+    destruct (IHc Hp p indent (with_lbok s false)) as [a Ha].
+    destruct (exec p indent c (with_lbok s false)) as [s1 r] eqn:E. cbn [fst] in Ha. unfold with_lbok in Ha. cbn [Wrap.res] in Ha.
+    destruct r as [e|].
+    + destruct e; try (exists a; exact Ha).
+      destruct (negb (lbok s)); [exists a; exact Ha|].
+      unfold restore, mark_of. cbn [fst m_len m_charpos m_lineno m_lbok]. rewrite Ha, firstn_app_exact.
+      apply (ext_same_res s (St (Wrap.res s) (charpos s) (lineno s) (lbok s))); [reflexivity|]. apply IHc. exact Hp.
+    + exists a. exact Ha.
+  - cbn [plain_cmd] in Hp. cbn [exec]. apply IHc. exact Hp.
+  - cbn [exec]. apply insert_comma_ext.
+Qed.
+
+Definition good (s s' : st) (t : text) : Prop :=
+  exists added, Wrap.res s' = Wrap.res s ++ added /\ closedb added = true /\ unwrap added = t.
+
+Lemma good_refl s : good s s [].
+Proof. exists []. rewrite app_nil_r. auto. Qed.
+
+Lemma good_seq s s1 s2 t1 t2 : good s s1 t1 -> good s1 s2 t2 -> good s s2 (t1 ++ t2).
+Proof.
+  intros [a [Ha [Ca Wa]]] [b [Hb [Cb Wb]]]. exists (a ++ b).
+  split; [rewrite Hb, Ha, app_assoc; reflexivity|]. split; [apply closedb_app; assumption|].
+  rewrite (unwrap_app a b Ca). rewrite Wa, Wb. reflexivity.
+Qed.
+
+Lemma good_same_res s0 s s' t : Wrap.res s0 = Wrap.res s -> good s0 s' t -> good s s' t.
+Proof. intros E [a [Ha H]]. exists a. rewrite <- E. auto. Qed.
+
+Lemma output_good p t k s s' : plain_kind k = true -> output p t k s = (s', None) -> good s s' t.
+Proof. intros Hk H. destruct (output_ok p t k s s' Hk H) as [a [Ha [Ca Ua]]]. exists a. auto. Qed.
+
+Lemma str_lines_good p esc : forall lines first s s',
+  lines <> [] -> str_lines p esc first lines s = (s', None) ->
+  good s s' ((if first then [] else [NL]) ++ join_nl (map esc lines)).
+Proof.
+  induction lines as [|l lines IH]; intros first s s' Hne H; [congruence|].
+  cbn [str_lines] in H. apply andthen_none in H. destruct H as [s1 [H1 H]].
+  apply andthen_none in H. destruct H as [s2 [H2 H3]].
+  assert (G1 : good s s1 (if first then [] else [NL])).
+  { destruct first.
+    - inversion H1; subst. apply good_refl.
+    - apply (output_good p [NL] NText s s1 eq_refl H1). }
+  pose proof (output_good p (esc l) NString s1 s2 eq_refl H2) as G2.
+  destruct lines as [|l2 lines].
+  - cbn [str_lines] in H3. inversion H3; subst s'. cbn [map join_nl]. apply (good_seq s s1 s2); assumption.
+  - pose proof (IH false s2 s' ltac:(discriminate) H3) as G3.
+    change (map esc (l :: l2 :: lines)) with (esc l :: map esc (l2 :: lines)).
+    rewrite join_cons_nonempty by discriminate.
+    pose proof (good_seq _ _ _ _ _ (good_seq _ _ _ _ _ G1 G2) G3) as G.
+    match type of G with good _ _ ?t =>
+      replace ((if first then [] else [NL]) ++ esc l ++ NL :: join_nl (map esc (l2 :: lines))) with t; [exact G|]
+    end.
+    rewrite <- app_assoc. reflexivity.
+Qed.
+
+Lemma exec_str_good p b raw s s' :
+  exec_str p b raw s = (s', None) -> exists t, good s s' t /\ (t = lit_single b raw \/ t = lit_triple b raw).
+Proof.
+  unfold exec_str. intros H.
+  apply andthen_none in H. destruct H as [s1 [H1 H]].
+  apply andthen_none in H. destruct H as [s2 [H2 H]].
+  apply andthen_none in H. destruct H as [s3 [H3 H4]].
+  pose proof (output_good p _ NText s s1 eq_refl H1) as G1.
+  pose proof (output_good p _ NQuote s1 s2 eq_refl H2) as G2.
+  pose proof (output_good p _ NQuote s3 s' eq_refl H4) as G4.
+  assert (Hl : (if lbok s then split_nl raw else [raw]) <> []).
+  { destruct (lbok s); [apply split_nl_nonempty|discriminate]. }
+  pose proof (str_lines_good p _ _ true s2 s3 Hl H3) as G3. cbn [app] in G3.
+  pose proof (good_seq _ _ _ _ _ (good_seq _ _ _ _ _ (good_seq _ _ _ _ _ G1 G2) G3) G4) as G.
+  eexists. split; [exact G|].
+  unfold lit_single, lit_triple, lit_prefix, lit_esc, SQ3, SQ.
+  destruct (lbok s).
+  - destruct (has_nl raw) eqn:En; cbn [andb].
+    + right. destruct b; rewrite <- !app_assoc; reflexivity.
+    + left. rewrite (split_nl_single raw En). cbn [map join_nl]. destruct b; rewrite <- !app_assoc; reflexivity.
+  - rewrite andb_false_r. left. cbn [map join_nl]. destruct b; rewrite <- !app_assoc; reflexivity.
+Qed.
+
+Lemma insert_comma_good p indent s s' :
+  insert_comma p indent s = (s', None) ->
+  exists t, good s s' t /\ (t = [44; 32] \/ exists n, t = 44 :: NL :: spaces n).
+Proof.
+  unfold insert_comma. destruct (lbok s); intros H.
+  - apply andthen_none in H. destruct H as [s1 [H1 H2]].
+    pose proof (good_seq _ _ _ _ _ (output_good p _ NText s s1 eq_refl H1) (output_good p _ NText s1 s' eq_refl H2)) as G.
+    eexists. split; [exact G|]. right. exists indent. reflexivity.
+  - eexists. split; [apply (output_good p _ NText s s' eq_refl H)|]. left. reflexivity.
+Qed.
+
+Definition LaySt (c : cmd) : Prop :=
+  plain_cmd c = true -> forall p indent s s', exec p indent c s = (s', None) -> exists t, good s s' t /\ flatP c t.
+
+(* every run that ends normally has emitted, markers aside, one of the layouts of the tree *)
+Lemma exec_layout c : LaySt c.
+Proof.
+  induction c using cmd_ind2; unfold LaySt; intros Hp p indent s s' Hex.
+  - cbn [exec] in Hex. exists t. split; [apply (output_good p t k s s' Hp Hex)|reflexivity].
+  - cbn [exec] in Hex. apply exec_str_good in Hex. exact Hex.
+  - cbn [exec] in Hex. inversion Hex; subst. exists []. split; [|reflexivity].
+    exists [WBR]. split; [reflexivity|]. split; reflexivity.
+  - rewrite exec_CSeq in Hex. cbn [plain_cmd] in Hp.
+    assert (Hs : exists t, good s s' t /\ seqP cs t).
+    { revert s Hex. induction cs as [|c1 cs IHcs]; intros s Hx.
+      + cbn in Hx. inversion Hx; subst. exists []. split; [apply good_refl|reflexivity].
+      + inversion H as [|? ? H1 H2]; subst. cbn [forallb] in Hp. apply andb_true_iff in Hp. destruct Hp as [Hp1 Hp2].
+        cbn [exec_seq] in Hx. apply andthen_none in Hx. destruct Hx as [s1 [Hx1 Hx2]].
+        destruct (H1 Hp1 p indent s s1 Hx1) as [t1 [G1 F1]].
+        destruct (IHcs H2 Hp2 s1 Hx2) as [t2 [G2 F2]].
+        exists (t1 ++ t2). split; [apply (good_seq s s1 s'); assumption|].
+        cbn [seqP]. exists t1, t2. auto. }
+    destruct Hs as [t [G F]]. exists t. split; [exact G|]. rewrite flatP_CSeq. exact F.
+  - cbn [plain_cmd] in Hp. cbn [exec] in Hex. destruct b.
+    + destruct (exec p indent c s) as [s1 r] eqn:E.
+      destruct (exec_ext c Hp p indent s) as [a Ha]. rewrite E in Ha. cbn [fst] in Ha.
+      unfold delim_exit, restore, mark_of in Hex. cbn [m_len m_charpos m_lineno m_lbok] in Hex.
+      rewrite Ha in Hex. rewrite firstn_app_exact, skipn_app_exact in Hex.
+      set (s2 := St (Wrap.res s) (charpos s) (lineno s) (lbok s)) in Hex.
+      destruct (output p [40] NText s2) as [s3 [e|]] eqn:E3; [discriminate|].
+      destruct (output p [41] NText (push s3 a)) as [s5 [e|]] eqn:E5; [discriminate|].
+      inversion Hex; subst s' r.
+      destruct (IHc Hp p indent s s1 E) as [t1 [[a' [Ha' [Ca' Ua']]] F1]].
+      assert (a' = a) by (rewrite Ha in Ha'; apply app_inv_head in Ha'; congruence). subst a'.
+      pose proof (output_good p [40] NText s2 s3 eq_refl E3) as G3.
+      pose proof (output_good p [41] NText (push s3 a) s5 eq_refl E5) as G5.
+      assert (Gm : good s3 (push s3 a) t1) by (exists a; auto).
+      pose proof (good_seq _ _ _ _ _ (good_seq _ _ _ _ _ G3 Gm) G5) as G.
+      exists (([40] ++ t1) ++ [41]). split; [apply (good_same_res s2 s); [reflexivity|exact G]|].
+      cbn [flatP]. exists t1. split; [rewrite <- app_assoc; reflexivity|exact F1].
+    + apply (IHc Hp p indent s s' Hex).
+  - cbn [plain_cmd] in Hp. cbn [exec flatP] in *.
+    destruct (exec p indent c (with_lbok s false)) as [s1 r] eqn:E.
+    destruct r as [e|].
+    + destruct e; try discriminate.
+      destruct (negb (lbok s)); [discriminate|].
+      destruct (exec_ext c Hp p indent (with_lbok s false)) as [a Ha]. rewrite E in Ha. cbn [fst] in Ha.
+      unfold with_lbok in Ha. cbn [Wrap.res] in Ha.
+      unfold restore, mark_of in Hex. cbn [fst m_len m_charpos m_lineno m_lbok] in Hex. rewrite Ha, firstn_app_exact in Hex.
+      destruct (IHc Hp p indent _ s' Hex) as [t [G F]].
+      exists t. split; [apply (good_same_res _ s s' t eq_refl G)|exact F].
+    + inversion Hex; subst s'.
+      destruct (IHc Hp p indent (with_lbok s false) s1 E) as [t [[a [Ha [Ca Ua]]] F]].
+      exists t. split; [exists a; unfold with_lbok in *; cbn [Wrap.res] in *; auto|exact F].
+  - cbn [plain_cmd] in Hp. cbn [exec flatP] in *. apply (IHc Hp p (charpos s) s s' Hex).
+  - cbn [exec] in Hex. apply insert_comma_good in Hex. exact Hex.
+Qed.
+
+(* C15_wrap_layout: when colorize says is_complete, what was emitted is -- LINEWRAP markers and the newlines after them
+   removed -- one of the layouts of the tree of output calls *)
+Theorem complete_layout p c :
+  plain_cmd c = true -> c_complete (colorize p c) = true -> flatP c (unwrap (c_nodes (colorize p c))).
+Proof.
+  intros Hp Hc. unfold colorize in *. destruct (exec p 0 c (init_st p)) as [s r] eqn:E. destruct r as [e|].
+  - destruct (lbparam p); [discriminate|].
+    destruct (trim_rev 3 false
+                match rev (Wrap.res s) with
+                | [] => rev (Wrap.res s)
+                | n :: rest => if is_linewrap n then rest else rev (Wrap.res s)
+                end); discriminate.
+  - cbn [c_nodes]. destruct (exec_layout c Hp p 0 (init_st p) s E) as [t [[a [Ha [Ca Ua]]] F]].
+    cbn [init_st Wrap.res app] in Ha. rewrite Ha, Ua. exact F.
+Qed.
